@@ -369,3 +369,43 @@ M("c20-global-counter", "C20", [(PRE, "class _Type(_enum.Enum):", "_COUNT = 0\n\
 M("c20-mutable-default", "C20", [(ESS, "    def __init__(self, formats: _Optional[_Union[str, list[str]]] = None, is_extensible: bool = False) -> _pre.Pregex:", "    def __init__(self, formats: _Optional[_Union[str, list[str]]] = [], is_extensible: bool = False) -> _pre.Pregex:")], rule="R-NOSHARED")
 M("c20-benign-local-list", "C20", [(ESS, "        dates: list[_pre.Pregex] = []\n", "        dates = list()\n")], expect="silent")
 M("c20-benign-sorted-set", "C20", [(PRE, "        for c in {'^', '$', '(', ')', '[', ']', '{', '}', '?', '+', '*', '.', '|', '/'}:", "        for c in sorted({'^', '$', '(', ')', '[', ']', '{', '}', '?', '+', '*', '.', '|', '/'}):")], expect="silent")
+
+# ---------------------------------------------------------------- C10
+_GUARD = '''        if _re.search(_re.sub(r"\\s", "", r"""
+            (?<!\\\\)(?:\\\\\\\\)*(?<!\\()(?:\\?|\\*|\\+|\\{,\\d+\\}|\\{\\d+,\\}|\\{\\d+,\\d+\\})|
+            (?<!\\\\)(?:\\\\\\\\)*\\\\\\((?:\\?|\\*|\\+|\\{,\\d+\\}|\\{\\d+,\\}|\\{\\d+,\\d+\\})
+        """), str(pre)) is not None:
+            raise _ex.NonFixedWidthPatternException(pre)
+'''
+M("c10-guard-removed-not-preceded-by", "C10", [(PRE, _GUARD + '''        pattern = f"(?<!{pre}){self._assert_conditional_group()}"''', '''        pattern = f"(?<!{pre}){self._assert_conditional_group()}"''')], rule="R-LB-GUARD")
+M("c10-one-copy-without-star", "C10", [(PRE, '''            (?<!\\\\)(?:\\\\\\\\)*(?<!\\()(?:\\?|\\*|\\+|\\{,\\d+\\}|\\{\\d+,\\}|\\{\\d+,\\d+\\})|
+            (?<!\\\\)(?:\\\\\\\\)*\\\\\\((?:\\?|\\*|\\+|\\{,\\d+\\}|\\{\\d+,\\}|\\{\\d+,\\d+\\})
+        """), str(pre)) is not None:
+            raise _ex.NonFixedWidthPatternException(pre)
+        return __class__(
+            f"(?<={pre}){self._assert_conditional_group()}",''', '''            (?<!\\\\)(?:\\\\\\\\)*(?<!\\()(?:\\?|\\+|\\{,\\d+\\}|\\{\\d+,\\}|\\{\\d+,\\d+\\})|
+            (?<!\\\\)(?:\\\\\\\\)*\\\\\\((?:\\?|\\*|\\+|\\{,\\d+\\}|\\{\\d+,\\}|\\{\\d+,\\d+\\})
+        """), str(pre)) is not None:
+            raise _ex.NonFixedWidthPatternException(pre)
+        return __class__(
+            f"(?<={pre}){self._assert_conditional_group()}",''')])
+M("c10-guard-after-emit-order", "C10", [(PRE, '''        pre = __class__._to_pregex(pre)
+        if pre._get_type() == _Type.Empty:
+            raise _ex.EmptyNegativeAssertionException()
+''' + _GUARD + '''        pattern = f"(?<!{pre}){self._assert_conditional_group()}(?!{pre})"''', '''        pre = __class__._to_pregex(pre)
+''' + _GUARD + '''        if pre._get_type() == _Type.Empty:
+            raise _ex.EmptyNegativeAssertionException()
+        pattern = f"(?<!{pre}){self._assert_conditional_group()}(?!{pre})"''')], expect="silent")  # '' never trips the guard: benign reorder
+M("c10-guard-on-self-instead-of-pre", "C10", [(PRE, '''        """), str(pre)) is not None:
+            raise _ex.NonFixedWidthPatternException(pre)
+        return __class__(
+            f"(?<={pre}){self._assert_conditional_group()}(?={pre})",''', '''        """), str(self)) is not None:
+            raise _ex.NonFixedWidthPatternException(pre)
+        return __class__(
+            f"(?<={pre}){self._assert_conditional_group()}(?={pre})",''')], rule="R-LB-GUARD")
+M("c10-followed-by-gets-guard", "C10", [(PRE, '''        return __class__(
+            f"{self._assert_conditional_group()}(?={pre})",''', '''        if "*" in str(pre) or "+" in str(pre):
+            raise _ex.NonFixedWidthPatternException(pre)
+        return __class__(
+            f"{self._assert_conditional_group()}(?={pre})",''')], rule="R-LB-GUARD")
+M("c10-guard-drops-range-form", "C10", [(PRE, "(?<!\\\\)(?:\\\\\\\\)*(?<!\\()(?:\\?|\\*|\\+|\\{,\\d+\\}|\\{\\d+,\\}|\\{\\d+,\\d+\\})|", "(?<!\\\\)(?:\\\\\\\\)*(?<!\\()(?:\\?|\\*|\\+|\\{,\\d+\\}|\\{\\d+,\\})|", 0)], rule="R-LB-GUARD")
